@@ -10,7 +10,8 @@ Proof.
   destruct (negb (rwd_extra_loop (zlen extra))); [reflexivity|].
   destruct (rwd_rec_overrun _ _); [reflexivity|].
   destruct (rwd_is_zip64_tag _).
-  - unfold rwd_take_u, rwd_take_c, rwd_take_o. rewrite Hc, Ho. cbn [andb]. destruct st; reflexivity.
+  - unfold rwd_seq_u, rwd_seq_c, rwd_seq_o, rwd_take_u, rwd_take_c, rwd_take_o. rewrite Hc, Ho. cbn [andb].
+    destruct st; cbn in Hc, Ho; subst. destruct (rwd_exact_rec _ _); reflexivity.
   - now apply IH.
 Qed.
 
@@ -30,7 +31,9 @@ Proof.
     set (extra := le_enc 2 tag ++ le_enc 2 (zlen body) ++ body ++ rest ++ Z).
     assert (Hlen : zlen extra = 4 + zlen body + zlen rest + zlen Z) by (unfold extra; rewrite !zlen_app, !le_enc_zlen; lia).
     unfold rwd_extra_loop. replace (zlen extra >=? 4) with true by lia. cbn [negb].
-    unfold extra at 2 3. rewrite dec2_head, dec2_second by lia.
+    assert (Htag : le_dec (zslice 0 2 extra) = tag) by (unfold extra; apply dec2_head; lia).
+    assert (Hsz : le_dec (zslice 2 4 extra) = zlen body) by (unfold extra; apply dec2_second; lia).
+    rewrite Htag, Hsz.
     unfold rwd_rec_overrun. replace (zlen body >? zlen extra - 4) with false by lia.
     unfold rwd_is_zip64_tag. replace (tag =? 1) with false by lia.
     assert (Hd : zdrop (4 + zlen body) extra = rest ++ Z).
@@ -42,18 +45,33 @@ Qed.
 
 Lemma z64_scan_head : forall k body Y need_u st, 0 < zlen body < 65536 ->
   z64_scan (S k) (le_enc 2 1 ++ le_enc 2 (zlen body) ++ body ++ Y) need_u st =
-  mkZ (if rwd_take_u need_u (zlen body) then le_dec (zslice 0 8 body) else z_usize st)
-      (if rwd_take_c (z_need_c st) (zlen body) then le_dec (zslice 8 16 body) else z_csize st)
-      (if rwd_take_o (z_need_o st) (zlen body) then le_dec (zslice 16 24 body) else z_offset st)
-      (if rwd_take_c (z_need_c st) (zlen body) then rwd_need_c_after else z_need_c st)
-      (if rwd_take_o (z_need_o st) (zlen body) then rwd_need_o_after else z_need_o st).
+  let size := zlen body in
+  let e := body in
+  let needed := (if need_u then 1 else 0) + (if z_need_c st then 1 else 0) + (if z_need_o st then 1 else 0) in
+  if rwd_exact_rec size needed then
+    let u := if rwd_seq_u need_u then le_dec (zslice 0 8 e) else z_usize st in
+    let e1 := if rwd_seq_u need_u then zdrop 8 e else e in
+    let c := if rwd_seq_c (z_need_c st) then le_dec (zslice 0 8 e1) else z_csize st in
+    let nc := if rwd_seq_c (z_need_c st) then rwd_need_c_after else z_need_c st in
+    let e2 := if rwd_seq_c (z_need_c st) then zdrop 8 e1 else e1 in
+    let o := if rwd_seq_o (z_need_o st) then le_dec (zslice 0 8 e2) else z_offset st in
+    let no := if rwd_seq_o (z_need_o st) then rwd_need_o_after else z_need_o st in
+    mkZ u c o nc no
+  else
+    mkZ (if rwd_take_u need_u size then le_dec (zslice 0 8 e) else z_usize st)
+        (if rwd_take_c (z_need_c st) size then le_dec (zslice 8 16 e) else z_csize st)
+        (if rwd_take_o (z_need_o st) size then le_dec (zslice 16 24 e) else z_offset st)
+        (if rwd_take_c (z_need_c st) size then rwd_need_c_after else z_need_c st)
+        (if rwd_take_o (z_need_o st) size then rwd_need_o_after else z_need_o st).
 Proof.
   intros k body Y need_u st Hb. pose proof (zlen_nonneg Y).
   cbn [z64_scan].
   set (extra := le_enc 2 1 ++ le_enc 2 (zlen body) ++ body ++ Y).
   assert (Hlen : zlen extra = 4 + zlen body + zlen Y) by (unfold extra; rewrite !zlen_app, !le_enc_zlen; lia).
   unfold rwd_extra_loop. replace (zlen extra >=? 4) with true by lia. cbn [negb].
-  unfold extra at 2 3. rewrite dec2_head, dec2_second by lia.
+  assert (Htag : le_dec (zslice 0 2 extra) = 1) by (unfold extra; apply dec2_head; lia).
+  assert (Hsz : le_dec (zslice 2 4 extra) = zlen body) by (unfold extra; apply dec2_second; lia).
+  rewrite Htag, Hsz.
   unfold rwd_rec_overrun. replace (zlen body >? zlen extra - 4) with false by lia.
   change (rwd_is_zip64_tag 1) with true. cbv iota.
   assert (He : zslice 4 (4 + zlen body) extra = body).
@@ -61,11 +79,13 @@ Proof.
   rewrite He. reflexivity.
 Qed.
 
-(* 8-byte fields inside a ZIP64 record body *)
-Lemma dec8_at a x R p q : p = zlen a -> q = zlen a + 8 -> 0 <= x < 2 ^ 64 -> le_dec (zslice p q (a ++ le_enc 8 x ++ R)) = x.
-Proof. intros -> -> H. rewrite zslice_mid by (rewrite ?le_enc_zlen; reflexivity). now apply le_dec_enc_small. Qed.
+(* 8-byte fields at the head of a ZIP64 record body *)
+Lemma dec8_head x R : 0 <= x < 2 ^ 64 -> le_dec (zslice 0 8 (le_enc 8 x ++ R)) = x.
+Proof. intros H. rewrite zslice_0, ztake_exact_n by now rewrite le_enc_zlen. now apply le_dec_enc_small. Qed.
+Lemma drop8_head x R : zdrop 8 (le_enc 8 x ++ R) = R.
+Proof. apply zdrop_exact_n. now rewrite le_enc_zlen. Qed.
 
-(* the scan on the central extra field of a spec-built entry restores the 64-bit values *)
+(* the scan on the central extra field of a spec-built entry restores the 64-bit values, for every saturation mask *)
 Lemma z64_scan_central : forall m off,
   central_ok m off ->
   let u0 := if sat_u m then A_M32 else m_usize m in
@@ -74,7 +94,7 @@ Lemma z64_scan_central : forall m off,
   let st := z64_scan (length (sp_cextra m off)) (sp_cextra m off) (rwd_need_u u0) (mkZ u0 c0 o0 (rwd_need_c c0) (rwd_need_o o0)) in
   z_usize st = m_usize m /\ z_csize st = sp_csize m /\ z_offset st = off /\ z_need_c st = false /\ z_need_o st = false.
 Proof.
-  intros m off H. destruct H as (_ & _ & _ & _ & _ & _ & _ & _ & _ & _ & Hxl & _ & Hus & Hcs & Hoff & Hoc & Hcu & Hwf).
+  intros m off H. destruct H as (_ & _ & _ & _ & _ & _ & _ & _ & _ & _ & Hxl & _ & Hus & Hcs & Hoff & Hwf).
   pose proof (zlen_nonneg (m_data m)) as Hd0. unfold sp_csize in *.
   cbv zeta.
   assert (Hnu : rwd_need_u (if sat_u m then A_M32 else m_usize m) = sat_u m).
@@ -85,56 +105,449 @@ Proof.
   { unfold rwd_need_o. destruct (sat_o m off) eqn:E; [reflexivity|]. unfold sat_o, sat in E. apply orb_false_iff in E as [_ E]. unfold A_M32 in E. lia. }
   rewrite Hnu, Hnc, Hno.
   unfold sp_cextra, sp_z64rec. fold (sat_u m) (sat_c m) (sat_o m off). fold (sp_csize m). unfold sp_csize.
-  destruct (sat_u m) eqn:Eu.
-  2:{ (* nothing saturated *)
-    assert (Ec : sat_c m = false) by (destruct (sat_c m); [specialize (Hcu eq_refl); congruence|reflexivity]).
-    assert (Eo : sat_o m off = false) by (destruct (sat_o m off); [specialize (Hoc eq_refl); congruence|reflexivity]).
-    rewrite Ec, Eo. rewrite z64_scan_noneed by reflexivity. cbn. auto. }
-  set (body := le_enc 8 (m_usize m) ++ (if sat_c m then le_enc 8 (zlen (m_data m)) else []) ++ (if sat_o m off then le_enc 8 off else [])).
-  assert (Hbl : zlen body = 8 + (if sat_c m then 8 else 0) + (if sat_o m off then 8 else 0)).
-  { unfold body. rewrite !zlen_app, le_enc_zlen. destruct (sat_c m), (sat_o m off); rewrite ?le_enc_zlen; reflexivity. }
-  assert (Hb0 : zlen body =? 0 = false) by (destruct (sat_c m), (sat_o m off); lia).
+  set (body := (if sat_u m then le_enc 8 (m_usize m) else []) ++ (if sat_c m then le_enc 8 (zlen (m_data m)) else []) ++ (if sat_o m off then le_enc 8 off else [])).
+  assert (Hbl : zlen body = (if sat_u m then 8 else 0) + (if sat_c m then 8 else 0) + (if sat_o m off then 8 else 0)).
+  { unfold body. rewrite !zlen_app. destruct (sat_u m), (sat_c m), (sat_o m off); rewrite ?le_enc_zlen; reflexivity. }
+  destruct (sat_u m || sat_c m || sat_o m off) eqn:Eany.
+  2:{ (* nothing saturated: no record; whatever the other extra data is, the scan leaves the fields alone *)
+    apply orb_false_iff in Eany as [Eany Eo]. apply orb_false_iff in Eany as [Eu Ec].
+    rewrite Eu, Ec, Eo in *. replace (zlen body =? 0) with true by (cbn in Hbl; lia).
+    rewrite app_nil_r, app_nil_l. destruct (m_z64last m); rewrite z64_scan_noneed by reflexivity; cbn; auto. }
+  assert (Hb0 : zlen body =? 0 = false) by (destruct (sat_u m), (sat_c m), (sat_o m off); try discriminate; lia).
   rewrite Hb0.
   set (REC := le_enc 2 1 ++ le_enc 2 (zlen body) ++ body).
-  assert (Hscan : forall fuel X Y, wf_extra X -> (length X < fuel)%nat -> forall st,
-            z64_scan fuel (X ++ REC ++ Y) true st =
-            mkZ (if rwd_take_u true (zlen body) then le_dec (zslice 0 8 body) else z_usize st)
-                (if rwd_take_c (z_need_c st) (zlen body) then le_dec (zslice 8 16 body) else z_csize st)
-                (if rwd_take_o (z_need_o st) (zlen body) then le_dec (zslice 16 24 body) else z_offset st)
-                (if rwd_take_c (z_need_c st) (zlen body) then rwd_need_c_after else z_need_c st)
-                (if rwd_take_o (z_need_o st) (zlen body) then rwd_need_o_after else z_need_o st)).
-  { intros fuel X Y HX Hf st. destruct (z64_scan_skip X HX fuel (REC ++ Y) true st Hf) as (k & ->).
-    unfold REC. rewrite <- !app_assoc. apply z64_scan_head. destruct (sat_c m), (sat_o m off); lia. }
-  assert (Hres : forall st, z_usize st = A_M32 -> z_csize st = (if sat_c m then A_M32 else zlen (m_data m)) ->
-            z_offset st = (if sat_o m off then A_M32 else off) -> z_need_c st = sat_c m -> z_need_o st = sat_o m off ->
-            let r := mkZ (if rwd_take_u true (zlen body) then le_dec (zslice 0 8 body) else z_usize st)
-                (if rwd_take_c (z_need_c st) (zlen body) then le_dec (zslice 8 16 body) else z_csize st)
-                (if rwd_take_o (z_need_o st) (zlen body) then le_dec (zslice 16 24 body) else z_offset st)
-                (if rwd_take_c (z_need_c st) (zlen body) then rwd_need_c_after else z_need_c st)
-                (if rwd_take_o (z_need_o st) (zlen body) then rwd_need_o_after else z_need_o st) in
+  set (st0 := mkZ (if sat_u m then A_M32 else m_usize m) (if sat_c m then A_M32 else zlen (m_data m)) (if sat_o m off then A_M32 else off) (sat_c m) (sat_o m off)).
+  assert (Hscan : forall fuel X Y, wf_extra X -> (length X < fuel)%nat ->
+            let r := z64_scan fuel (X ++ REC ++ Y) (sat_u m) st0 in
             z_usize r = m_usize m /\ z_csize r = zlen (m_data m) /\ z_offset r = off /\ z_need_c r = false /\ z_need_o r = false).
-  { intros st H1 H2 H3 H4 H5. cbv zeta. cbn [z_usize z_csize z_offset z_need_c z_need_o]. rewrite H4, H5.
-    unfold rwd_take_u, rwd_take_c, rwd_take_o, rwd_need_c_after, rwd_need_o_after. rewrite Hbl.
-    destruct (sat_c m) eqn:Ec; destruct (sat_o m off) eqn:Eo; try (specialize (Hoc eq_refl); congruence);
-      unfold body; rewrite ?Ec, ?Eo; cbn [andb]; rewrite ?app_nil_r.
-    - replace (8 + 8 + 8 >=? 8) with true by lia. replace (8 + 8 + 8 >=? 16) with true by lia. replace (8 + 8 + 8 >=? 24) with true by lia.
-      repeat split; try reflexivity.
-      + rewrite <- (app_nil_l (le_enc 8 (m_usize m) ++ _)). apply dec8_at; try reflexivity; lia.
-      + apply (dec8_at (le_enc 8 (m_usize m))); rewrite ?le_enc_zlen; try reflexivity; lia.
-      + rewrite (app_assoc (le_enc 8 (m_usize m))). rewrite <- (app_nil_r (le_enc 8 off)).
-        apply dec8_at; rewrite ?zlen_app, ?le_enc_zlen; try reflexivity; lia.
-    - replace (8 + 8 + 0 >=? 8) with true by lia. replace (8 + 8 + 0 >=? 16) with true by lia.
-      repeat split; try reflexivity; try assumption.
-      + rewrite <- (app_nil_l (le_enc 8 (m_usize m) ++ _)). apply dec8_at; try reflexivity; lia.
-      + rewrite <- (app_nil_r (le_enc 8 (zlen (m_data m)))). apply (dec8_at (le_enc 8 (m_usize m))); rewrite ?le_enc_zlen; try reflexivity; lia.
-    - replace (8 + 0 + 0 >=? 8) with true by lia.
-      repeat split; try reflexivity; try assumption.
-      rewrite <- (app_nil_l (le_enc 8 (m_usize m))), <- (app_nil_r (le_enc 8 (m_usize m))). rewrite <- app_assoc. apply dec8_at; try reflexivity; lia. }
+  { intros fuel X Y HX Hf. cbv zeta. destruct (z64_scan_skip X HX fuel (REC ++ Y) (sat_u m) st0 Hf) as (k & ->).
+    unfold REC. rewrite <- !app_assoc. rewrite z64_scan_head by (destruct (sat_u m), (sat_c m), (sat_o m off); try discriminate; lia).
+    cbv zeta. unfold st0. cbn [z_usize z_csize z_offset z_need_c z_need_o].
+    unfold rwd_exact_rec, rwd_seq_u, rwd_seq_c, rwd_seq_o, rwd_need_c_after, rwd_need_o_after. rewrite Hbl. unfold body.
+    destruct (sat_u m), (sat_c m), (sat_o m off); try discriminate; cbn [app]; rewrite ?app_nil_r;
+      match goal with |- context [if ?c then _ else _] => replace c with true by lia end; cbv iota;
+      cbn [z_usize z_csize z_offset z_need_c z_need_o]; rewrite ?drop8_head;
+      repeat split; try reflexivity;
+      try (apply dec8_head; lia);
+      try (rewrite <- (app_nil_r (le_enc 8 _)); apply dec8_head; lia). }
   destruct (m_z64last m) eqn:El.
   - rewrite <- (app_nil_r (m_cextra m ++ REC)), <- app_assoc.
-    rewrite Hscan; [|now apply Hwf|rewrite !app_length; unfold REC; rewrite !app_length, !le_enc_length; lia].
-    now apply Hres.
+    apply Hscan; [now apply Hwf|rewrite !app_length; unfold REC; rewrite !app_length, !le_enc_length; lia].
   - rewrite <- (app_nil_l (REC ++ m_cextra m)).
-    rewrite Hscan; [|constructor|cbn [length app]; unfold REC; rewrite !app_length, !le_enc_length; lia].
-    now apply Hres.
+    apply Hscan; [constructor|cbn [length app]; unfold REC; rewrite !app_length, !le_enc_length; lia].
 Qed.
+
+(* ------------------------------------------------------------------ one central entry *)
+Lemma lor8_range a : 0 <= a < 65536 -> 0 <= Z.lor a 8 < 65536.
+Proof.
+  intros H. split; [apply Z.lor_nonneg; lia|].
+  assert (0 < Z.lor a 8).
+  { assert (0 <= Z.lor a 8) by (apply Z.lor_nonneg; lia). assert (Z.lor a 8 <> 0) by (rewrite Z.lor_eq_0_iff; lia). lia. }
+  change 65536 with (2 ^ 16). apply Z.log2_lt_pow2; [assumption|].
+  rewrite Z.log2_lor by lia. change (Z.log2 8) with 3.
+  destruct (Z.eq_dec a 0) as [->|Ha]; [cbn; lia|].
+  assert (Z.log2 a < 16) by (apply Z.log2_lt_pow2; lia). lia.
+Qed.
+Lemma sp_flags_range m : 0 <= m_flags m < 65536 -> 0 <= sp_flags m < 65536.
+Proof. intros H. unfold sp_flags. destruct (has_desc m); [now apply lor8_range|now rewrite Z.lor_0_r]. Qed.
+
+Lemma sp_cdh_len m off : zlen (sp_cdh m off) = 46.
+Proof. unfold sp_cdh. rewrite zlen_enc_struct; [reflexivity|reflexivity|unfold apn_cdh_widths; wsok]. Qed.
+Lemma sp_central_len m off : zlen (sp_central m off) = 46 + zlen (m_name m) + zlen (sp_cextra m off) + zlen (m_comment m).
+Proof. unfold sp_central. rewrite !zlen_app, sp_cdh_len. lia. Qed.
+
+Definition cdh_vals (m : smember) (off : Z) : list Z :=
+  [A_CDH_SIG; m_creator m; m_reader m; sp_flags m; m_method m; m_mtime m; m_mdate m; m_crc m;
+   (if sat_c m then A_M32 else sp_csize m); (if sat_u m then A_M32 else m_usize m);
+   zlen (m_name m); zlen (sp_cextra m off); zlen (m_comment m); m_disk m; m_iattrs m; m_eattrs m;
+   (if sat_o m off then A_M32 else off)].
+Lemma sp_cdh_vals m off : sp_cdh m off = enc_struct apn_cdh_widths (cdh_vals m off).
+Proof. reflexivity. Qed.
+
+Lemma cdf_central m off R i : (i < 17)%nat ->
+  cdf (off_of i apn_cdh_widths) (nth i apn_cdh_widths 0) (sp_central m off ++ R) = nth i (cdh_vals m off) 0 mod 256 ^ nth i apn_cdh_widths 0.
+Proof.
+  intros Hi. unfold cdf, sp_central. rewrite <- !app_assoc. rewrite sp_cdh_vals.
+  apply fld_enc_struct; [reflexivity|unfold apn_cdh_widths; wsok|exact Hi].
+Qed.
+
+Lemma sat_small (forced : bool) v : sat forced v = false -> v < 4294967295.
+Proof. unfold sat, A_M32. intros H. apply orb_false_iff in H as [_ H]. lia. Qed.
+
+Lemma read_entries_step : forall k m off R, central_ok m off ->
+  read_entries (S k) (sp_central m off ++ R) = (rest <- read_entries k R ;; Ok (parsed_ent m off :: fst rest, snd rest)).
+Proof.
+  intros k m off R H. pose proof (z64_scan_central m off H) as Hscan. cbv zeta in Hscan.
+  destruct H as (Hcr & Hrd & Hfl & Hme & Hmt & Hmd & Hcrc & Hia & Hea & Hnl & Hxl & Hcl & Hus & Hcs & Hoff & Hwf).
+  pose proof (zlen_nonneg (m_name m)) as Hn0. pose proof (zlen_nonneg (sp_cextra m off)) as Hx0.
+  pose proof (zlen_nonneg (m_comment m)) as Hc0. pose proof (zlen_nonneg R) as HR0.
+  pose proof (zlen_nonneg (m_data m)) as Hd0. pose proof (sp_flags_range m Hfl) as Hflr.
+  set (cd := sp_central m off ++ R).
+  assert (Hlen : zlen cd = 46 + zlen (m_name m) + zlen (sp_cextra m off) + zlen (m_comment m) + zlen R)
+    by (unfold cd; rewrite zlen_app, sp_central_len; lia).
+  assert (F : forall i, (i < 17)%nat -> cdf (off_of i apn_cdh_widths) (nth i apn_cdh_widths 0) cd = nth i (cdh_vals m off) 0 mod 256 ^ nth i apn_cdh_widths 0)
+    by (intros i Hi; unfold cd; now apply cdf_central).
+  cbn [read_entries]. fold cd.
+  replace (zlen cd <? 4) with false by lia.
+  assert (Hsig : le_dec (ztake 4 cd) = A_CDH_SIG).
+  { rewrite <- zslice_0. change (le_dec (zslice 0 4 cd)) with (cdf (off_of 0 apn_cdh_widths) (nth 0 apn_cdh_widths 0) cd). rewrite F by lia. reflexivity. }
+  rewrite Hsig. change (rwd_not_cd_sig A_CDH_SIG) with false. cbv iota.
+  change directoryHeaderLen with 46. replace (zlen cd <? 46) with false by lia.
+  change cdh_off_FilenameLen with (off_of 10 apn_cdh_widths). change cdh_w_FilenameLen with (nth 10 apn_cdh_widths 0).
+  change cdh_off_ExtraLen with (off_of 11 apn_cdh_widths). change cdh_w_ExtraLen with (nth 11 apn_cdh_widths 0).
+  change cdh_off_CommentLen with (off_of 12 apn_cdh_widths). change cdh_w_CommentLen with (nth 12 apn_cdh_widths 0).
+  change cdh_off_UncompressedSize with (off_of 9 apn_cdh_widths). change cdh_w_UncompressedSize with (nth 9 apn_cdh_widths 0).
+  change cdh_off_CompressedSize with (off_of 8 apn_cdh_widths). change cdh_w_CompressedSize with (nth 8 apn_cdh_widths 0).
+  change cdh_off_Offset with (off_of 16 apn_cdh_widths). change cdh_w_Offset with (nth 16 apn_cdh_widths 0).
+  change cdh_off_CreatorVersion with (off_of 1 apn_cdh_widths). change cdh_w_CreatorVersion with (nth 1 apn_cdh_widths 0).
+  change cdh_off_ReaderVersion with (off_of 2 apn_cdh_widths). change cdh_w_ReaderVersion with (nth 2 apn_cdh_widths 0).
+  change cdh_off_Flags with (off_of 3 apn_cdh_widths). change cdh_w_Flags with (nth 3 apn_cdh_widths 0).
+  change cdh_off_Method with (off_of 4 apn_cdh_widths). change cdh_w_Method with (nth 4 apn_cdh_widths 0).
+  change cdh_off_ModifiedTime with (off_of 5 apn_cdh_widths). change cdh_w_ModifiedTime with (nth 5 apn_cdh_widths 0).
+  change cdh_off_ModifiedDate with (off_of 6 apn_cdh_widths). change cdh_w_ModifiedDate with (nth 6 apn_cdh_widths 0).
+  change cdh_off_CRC32 with (off_of 7 apn_cdh_widths). change cdh_w_CRC32 with (nth 7 apn_cdh_widths 0).
+  change cdh_off_InternalAttrs with (off_of 14 apn_cdh_widths). change cdh_w_InternalAttrs with (nth 14 apn_cdh_widths 0).
+  change cdh_off_ExternalAttrs with (off_of 15 apn_cdh_widths). change cdh_w_ExternalAttrs with (nth 15 apn_cdh_widths 0).
+  rewrite !F by lia. cbn [nth cdh_vals apn_cdh_widths].
+  change (256 ^ 2) with 65536. change (256 ^ 4) with 4294967296.
+  assert (Hcsv : 0 <= (if sat_c m then A_M32 else sp_csize m) < 4294967296).
+  { destruct (sat_c m) eqn:E; [unfold A_M32; lia|]. unfold sat_c in E. apply sat_small in E. unfold sp_csize in *. lia. }
+  assert (Husv : 0 <= (if sat_u m then A_M32 else m_usize m) < 4294967296).
+  { destruct (sat_u m) eqn:E; [unfold A_M32; lia|]. unfold sat_u in E. apply sat_small in E. lia. }
+  assert (Hofv : 0 <= (if sat_o m off then A_M32 else off) < 4294967296).
+  { destruct (sat_o m off) eqn:E; [unfold A_M32; lia|]. unfold sat_o in E. apply sat_small in E. lia. }
+  rewrite (Z.mod_small (zlen (m_name m))), (Z.mod_small (zlen (sp_cextra m off))), (Z.mod_small (zlen (m_comment m))) by lia.
+  rewrite (Z.mod_small _ 4294967296 Hcsv), (Z.mod_small _ 4294967296 Husv), (Z.mod_small _ 4294967296 Hofv).
+  rewrite (Z.mod_small (m_creator m)), (Z.mod_small (m_reader m)), (Z.mod_small (sp_flags m)), (Z.mod_small (m_method m)),
+          (Z.mod_small (m_mtime m)), (Z.mod_small (m_mdate m)), (Z.mod_small (m_crc m)), (Z.mod_small (m_iattrs m)), (Z.mod_small (m_eattrs m)) by lia.
+  (* the four slices *)
+  assert (D1 : zdrop 46 cd = m_name m ++ sp_cextra m off ++ m_comment m ++ R).
+  { unfold cd, sp_central. rewrite <- !app_assoc. apply zdrop_exact_n. now rewrite sp_cdh_len. }
+  rewrite D1. rewrite !zlen_app.
+  replace (zlen (m_name m) + (zlen (sp_cextra m off) + (zlen (m_comment m) + zlen R)) <? zlen (m_name m)) with false by lia.
+  rewrite zdrop_app_exact, ztake_app_exact. rewrite !zlen_app.
+  replace (zlen (sp_cextra m off) + (zlen (m_comment m) + zlen R) <? zlen (sp_cextra m off)) with false by lia.
+  rewrite zdrop_app_exact, ztake_app_exact. rewrite !zlen_app.
+  replace (zlen (m_comment m) + zlen R <? zlen (m_comment m)) with false by lia.
+  rewrite zdrop_app_exact, ztake_app_exact.
+  destruct Hscan as (S1 & S2 & S3 & S4 & S5).
+  set (st := z64_scan _ _ _ _) in *.
+  rewrite S1, S2, S3, S4, S5. change (rwd_missing_z64 false false) with false. cbv iota.
+  assert (Hraw : ztake (46 + zlen (m_name m) + zlen (sp_cextra m off) + zlen (m_comment m)) cd = sp_central m off).
+  { unfold cd. apply ztake_exact_n. now rewrite sp_central_len. }
+  rewrite Hraw. reflexivity.
+Qed.
+
+(* ------------------------------------------------------------------ the whole central directory *)
+Definition centrals (ps : list (smember * Z)) : bytes := concat (map (fun p => sp_central (fst p) (snd p)) ps).
+Definition parsed (ps : list (smember * Z)) : list cdent := map (fun p => parsed_ent (fst p) (snd p)) ps.
+
+Lemma read_entries_centrals : forall ps tail fuel,
+  Forall (fun p => central_ok (fst p) (snd p)) ps -> 4 <= zlen tail -> rwd_not_cd_sig (le_dec (ztake 4 tail)) = true ->
+  (length ps < fuel)%nat -> read_entries fuel (centrals ps ++ tail) = Ok (parsed ps, tail).
+Proof.
+  induction ps as [|[m off] ps IH]; intros tail fuel Hok Ht Hsig Hf.
+  - destruct fuel as [|k]; [cbn in Hf; lia|]. cbn [centrals map concat app read_entries].
+    replace (zlen tail <? 4) with false by lia. rewrite Hsig. reflexivity.
+  - destruct fuel as [|k]; [cbn in Hf; lia|]. inversion Hok as [|? ? H1 H2]; subst.
+    unfold centrals. cbn [map concat fst snd]. rewrite <- app_assoc.
+    rewrite read_entries_step by exact H1. fold (centrals ps).
+    rewrite IH by (auto; cbn in Hf; lia). reflexivity.
+Qed.
+Lemma centrals_long ps : (length ps <= length (centrals ps))%nat.
+Proof.
+  induction ps as [|[m off] ps IH]; [cbn; lia|]. unfold centrals in *. cbn [map concat fst snd length]. rewrite app_length.
+  pose proof (sp_central_len m off) as H. unfold zlen in H.
+  pose proof (zlen_nonneg (m_name m)). pose proof (zlen_nonneg (sp_cextra m off)). pose proof (zlen_nonneg (m_comment m)).
+  unfold zlen in *. lia.
+Qed.
+
+(* end records as parsed by ReadWithDirectory *)
+Lemma eocd_sig4 a b c R : le_dec (ztake 4 (eocd_of a b c ++ R)) = A_EOCD_SIG.
+Proof.
+  rewrite <- zslice_0. change (le_dec (zslice 0 4 (eocd_of a b c ++ R))) with (fld (off_of 0 apn_eocd_widths) (nth 0 apn_eocd_widths 0) (eocd_of a b c ++ R)).
+  unfold eocd_of. rewrite fld_enc_struct; [reflexivity|reflexivity|unfold apn_eocd_widths; wsok|cbn; lia].
+Qed.
+Lemma eocd_sig4' a b c : le_dec (ztake 4 (eocd_of a b c)) = A_EOCD_SIG.
+Proof. rewrite <- (app_nil_r (eocd_of a b c)). apply eocd_sig4. Qed.
+Lemma e64_sig4 a b c d e R : le_dec (ztake 4 (e64_of a b c d e ++ R)) = A_E64_SIG.
+Proof.
+  rewrite <- zslice_0. change (le_dec (zslice 0 4 (e64_of a b c d e ++ R))) with (fld (off_of 0 apn_e64_widths) (nth 0 apn_e64_widths 0) (e64_of a b c d e ++ R)).
+  unfold e64_of. rewrite fld_enc_struct; [reflexivity|reflexivity|unfold apn_e64_widths; wsok|cbn; lia].
+Qed.
+
+Definition dir_plain (ps : list (smember * Z)) (size dirloc : Z) (E : bytes) : directory :=
+  mkDir (parsed ps) size dirloc (zeros e64_size) (zeros l64_size) E.
+Definition dir_zip64 (ps : list (smember * Z)) (size dirloc : Z) (E64 L E : bytes) : directory :=
+  mkDir (parsed ps) size dirloc E64 L E.
+
+Lemma rwd_plain : forall ps size a b c,
+  Forall (fun p => central_ok (fst p) (snd p)) ps ->
+  read_with_directory size (centrals ps ++ eocd_of a b c) =
+  Ok (dir_plain ps size (size - zlen (centrals ps ++ eocd_of a b c)) (eocd_of a b c)).
+Proof.
+  intros ps size a b c Hok. unfold read_with_directory.
+  pose proof (eocd_len a b c) as HE.
+  rewrite read_entries_centrals; [|assumption|lia| |].
+  2:{ rewrite eocd_sig4'. reflexivity. }
+  2:{ pose proof (centrals_long ps). rewrite app_length. lia. }
+  cbn [bind fst snd]. rewrite eocd_sig4'.
+  change (A_EOCD_SIG =? directory64EndSignature) with false. change (A_EOCD_SIG =? directoryEndSignature) with true. cbv iota.
+  unfold dir_plain, rwd_dirloc.
+  cbn [seq_take]. change (2 =? 2) with true. change (struct_size 2) with 22. cbv iota.
+  replace (zlen (eocd_of a b c) <? 22) with false by lia. rewrite (ztake_all 22 (eocd_of a b c)) by lia. reflexivity.
+Qed.
+
+Lemma rwd_zip64 : forall ps size cr rd n s o c16 s32 o32 lo,
+  Forall (fun p => central_ok (fst p) (snd p)) ps ->
+  let E64 := e64_of cr rd n s o in let L := l64_of lo in let E := eocd_of c16 s32 o32 in
+  read_with_directory size (centrals ps ++ E64 ++ L ++ E) =
+  Ok (dir_zip64 ps size (size - zlen (centrals ps ++ E64 ++ L ++ E)) E64 L E).
+Proof.
+  intros ps size cr rd n s o c16 s32 o32 lo Hok E64 L E. unfold read_with_directory.
+  pose proof (eocd_len c16 s32 o32) as HE. pose proof (e64_len cr rd n s o) as H64. pose proof (l64_len lo) as HL.
+  fold E in HE. fold E64 in H64. fold L in HL.
+  rewrite read_entries_centrals; [|assumption|rewrite !zlen_app; lia| |].
+  2:{ unfold E64. rewrite e64_sig4. reflexivity. }
+  2:{ pose proof (centrals_long ps). rewrite app_length. lia. }
+  cbn [bind fst snd]. unfold E64 at 1 2. rewrite e64_sig4. fold E64.
+  change (A_E64_SIG =? directory64EndSignature) with true. cbv iota.
+  unfold dir_zip64, rwd_dirloc.
+  unfold rwd_read_order. cbn [skipn seq_take].
+  change (struct_size 3) with 56. change (struct_size 1) with 20. change (struct_size 2) with 22.
+  change (3 =? 3) with true. change (3 =? 1) with false. change (3 =? 2) with false. change (1 =? 1) with true. change (1 =? 2) with false.
+  change (2 =? 2) with true. cbv iota.
+  rewrite !zlen_app. replace (zlen E64 + (zlen L + zlen E) <? 56) with false by lia.
+  rewrite zdrop_exact_n by lia. rewrite zlen_app. replace (zlen L + zlen E <? 20) with false by lia.
+  rewrite zdrop_exact_n by lia. replace (zlen E <? 22) with false by lia.
+  rewrite (ztake_exact_n 56 E64) by lia. rewrite (ztake_exact_n 20 L) by lia. rewrite (ztake_all 22 E) by lia. reflexivity.
+Qed.
+
+(* ------------------------------------------------------------------ the whole archive: parse (build ms) *)
+Lemma sp_locals_plain ms : sp_locals [] ms = locals ms.
+Proof. induction ms as [|m ms IH]; [reflexivity|]. cbn [sp_locals hd tl app]. rewrite IH. reflexivity. Qed.
+Lemma sp_offsets_len s g ms : length (sp_offsets s g ms) = length ms.
+Proof. revert s g. induction ms as [|m ms IH]; intros; cbn [sp_offsets length]; [reflexivity|]. now rewrite IH. Qed.
+Lemma build_plain ms mode :
+  build ms (plain_opts mode) =
+  locals ms ++ centrals (pairs ms) ++ sp_end (plain_opts mode) (zlen ms) (zlen (centrals (pairs ms))) (zlen (locals ms)).
+Proof.
+  unfold build, plain_opts. cbn [o_gaps o_gapcd o_cdorder o_prefix app]. rewrite sp_locals_plain, app_nil_r.
+  unfold sp_centrals, centrals, pairs. reflexivity.
+Qed.
+
+Lemma placed_parsed : forall ms s, placed s ms (parsed (combine ms (sp_offsets s [] ms))).
+Proof.
+  induction ms as [|m ms IH]; intros s; cbn [sp_offsets combine parsed map]; [constructor|].
+  cbn [hd tl]. change (zlen (@nil Z)) with 0. rewrite Z.add_0_r. constructor.
+  - repeat split.
+  - apply IH.
+Qed.
+
+Lemma sp_end_cases mode count cdsize cdoff :
+  let need := (count >=? A_M16) || (cdsize >=? A_M32) || (cdoff >=? A_M32) in
+  let all := mode =? 1 in
+  let f16 := fun v => if all || (v >=? A_M16) then A_M16 else v in
+  let f32 := fun v => if all || (v >=? A_M32) then A_M32 else v in
+  sp_end (plain_opts mode) count cdsize cdoff =
+  if need || negb (mode =? 0)
+  then e64_of 45 45 count cdsize cdoff ++ l64_of (cdoff + cdsize) ++ eocd_of (f16 count) (f32 cdsize) (f32 cdoff)
+  else eocd_of (f16 count) (f32 cdsize) (f32 cdoff).
+Proof.
+  cbv zeta. unfold sp_end, plain_opts. cbn [o_zip64end o_e64creator o_e64reader o_comment]. change (zlen (@nil Z)) with 0.
+  rewrite !app_nil_r. destruct ((count >=? A_M16) || (cdsize >=? A_M32) || (cdoff >=? A_M32) || negb (mode =? 0)).
+  - rewrite <- app_assoc. reflexivity.
+  - reflexivity.
+Qed.
+
+Lemma god_records_eq a b c :
+  god_records a b c = (if god_emit_end64 (fld e64_off_Signature e64_w_Signature a) then a else [])
+                   ++ (if god_emit_loc64 (fld l64_off_Signature l64_w_Signature b) then b else []) ++ c.
+Proof.
+  unfold god_records, god_write_order. cbn [map concat]. unfold pick. cbn [find fst snd].
+  change (3 =? 3) with true. change (3 =? 1) with false. change (1 =? 1) with true. change (3 =? 2) with false. change (1 =? 2) with false.
+  change (2 =? 2) with true. cbv iota. now rewrite app_nil_r.
+Qed.
+
+Lemma cd_bytes_parsed ps : cd_bytes (parsed ps) = centrals ps.
+Proof.
+  unfold cd_bytes, parsed, centrals. rewrite map_map. apply f_equal. apply map_ext. intros [m off]. cbn [fst snd].
+  unfold dir_header, parsed_ent. cbn [e_raw]. unfold gdh_use_raw.
+  pose proof (sp_central_len m off). pose proof (zlen_nonneg (m_name m)). pose proof (zlen_nonneg (sp_cextra m off)).
+  pose proof (zlen_nonneg (m_comment m)). replace (zlen (sp_central m off) >? 0) with true by lia. reflexivity.
+Qed.
+
+Lemma eocd_sig_fld a b c : fld eocd_off_Signature eocd_w_Signature (eocd_of a b c) = A_EOCD_SIG.
+Proof. unfold eocd_of. sfield apn_eocd_widths 0%nat. reflexivity. Qed.
+Lemma e64_sig_fld a b c d e : fld e64_off_Signature e64_w_Signature (e64_of a b c d e) = A_E64_SIG.
+Proof. unfold e64_of. sfield apn_e64_widths 0%nat. reflexivity. Qed.
+Lemma l64_sig_fld a : fld l64_off_Signature l64_w_Signature (l64_of a) = A_L64_SIG.
+Proof. unfold l64_of. sfield apn_l64_widths 0%nat. reflexivity. Qed.
+
+(* GetOriginalDirectory(false) returns the original directory entries and the original end records, whichever they were *)
+Lemma get_original_plain r ps size dirloc a b c :
+  get_original r (dir_plain ps size dirloc (eocd_of a b c)) false = Ok (centrals ps, eocd_of a b c).
+Proof.
+  unfold get_original, dir_plain. cbn [d_end d_files d_dirloc d_end64 d_loc64]. rewrite eocd_sig_fld.
+  change (god_is_new A_EOCD_SIG) with false. cbv iota.
+  unfold write_directory. change (wd_separate true) with true. cbv iota.
+  change (list_eqb Z.eqb god_wd_weod_arg [0]) with false. cbv iota. cbn [bind fst]. rewrite cd_bytes_parsed.
+  rewrite god_records_eq. reflexivity.
+Qed.
+Lemma get_original_zip64 r ps size dirloc cr rd n s o lo a b c :
+  get_original r (dir_zip64 ps size dirloc (e64_of cr rd n s o) (l64_of lo) (eocd_of a b c)) false =
+  Ok (centrals ps, e64_of cr rd n s o ++ l64_of lo ++ eocd_of a b c).
+Proof.
+  unfold get_original, dir_zip64. cbn [d_end d_files d_dirloc d_end64 d_loc64]. rewrite eocd_sig_fld.
+  change (god_is_new A_EOCD_SIG) with false. cbv iota.
+  unfold write_directory. change (wd_separate true) with true. cbv iota.
+  change (list_eqb Z.eqb god_wd_weod_arg [0]) with false. cbv iota. cbn [bind fst]. rewrite cd_bytes_parsed.
+  rewrite god_records_eq, e64_sig_fld, l64_sig_fld. reflexivity.
+Qed.
+
+Lemma views_parsed : forall ms s mode,
+  views (parsed (combine ms (sp_offsets s [] ms))) (map sized_of ms) =
+  map (fun p => sp_view1 (plain_opts mode) (fst p) (snd p)) (combine ms (sp_offsets s [] ms)).
+Proof.
+  induction ms as [|m ms IH]; intros s mode; [reflexivity|].
+  cbn [sp_offsets hd tl]. change (zlen (@nil Z)) with 0. rewrite Z.add_0_r.
+  unfold views, parsed in *. cbn [combine map fst snd]. f_equal; try reflexivity. apply IH.
+Qed.
+
+Theorem parse_build_thm : forall ms mode, classK ms mode ->
+  let z := build ms (plain_opts mode) in
+  exists d, read_zip (rd_bytes z) (zlen z) = Ok d
+    /\ d_files d = parsed (pairs ms) /\ d_dirloc d = zlen (locals ms)
+    /\ (forall md, total_sizes md (rd_bytes z) 0 (d_files d) = Ok (map sized_of ms))
+    /\ views (d_files d) (map sized_of ms) = sp_view ms (plain_opts mode)
+    /\ exists cd eod, get_original (rd_bytes z) d false = Ok (cd, eod) /\ cd ++ eod = zdrop (zlen (locals ms)) z.
+Proof.
+  intros ms mode (Hloc & Hcen & Hmode & Hbig) z. fold z in Hbig.
+  assert (Hz : z = locals ms ++ centrals (pairs ms) ++ sp_end (plain_opts mode) (zlen ms) (zlen (centrals (pairs ms))) (zlen (locals ms)))
+    by (unfold z; apply build_plain).
+  set (L := locals ms) in *. set (C := centrals (pairs ms)) in *.
+  pose proof (zlen_nonneg L) as HL0. pose proof (zlen_nonneg C) as HC0. pose proof (zlen_nonneg ms) as Hn0.
+  pose proof (sp_end_cases mode (zlen ms) (zlen C) (zlen L)) as HE. cbv zeta in HE.
+  set (c16 := if (mode =? 1) || (zlen ms >=? A_M16) then A_M16 else zlen ms) in *.
+  set (s32 := if (mode =? 1) || (zlen C >=? A_M32) then A_M32 else zlen C) in *.
+  set (o32 := if (mode =? 1) || (zlen L >=? A_M32) then A_M32 else zlen L) in *.
+  assert (Hc16 : 0 <= c16 < 65536) by (unfold c16, A_M16; destruct ((mode =? 1) || (zlen ms >=? 65535)) eqn:E; [lia|apply orb_false_iff in E; lia]).
+  assert (Hs32 : 0 <= s32 < 4294967296) by (unfold s32, A_M32; destruct ((mode =? 1) || (zlen C >=? 4294967295)) eqn:E; [lia|apply orb_false_iff in E; lia]).
+  assert (Ho32 : 0 <= o32 < 4294967296) by (unfold o32, A_M32; destruct ((mode =? 1) || (zlen L >=? 4294967295)) eqn:E; [lia|apply orb_false_iff in E; lia]).
+  assert (Hsizes : forall d md, d_files d = parsed (pairs ms) -> total_sizes md (rd_bytes z) 0 (d_files d) = Ok (map sized_of ms)).
+  { intros d md ->. rewrite Hz. rewrite <- (app_nil_l (L ++ _)).
+    apply total_sizes_locals; [assumption|apply placed_parsed| |reflexivity].
+    change (zlen (@nil Z)) with 0. rewrite Hz, !zlen_app in Hbig. pose proof (zlen_nonneg (sp_end (plain_opts mode) (zlen ms) (zlen C) (zlen L))). fold L. lia. }
+  assert (Hview : views (parsed (pairs ms)) (map sized_of ms) = sp_view ms (plain_opts mode)).
+  { unfold sp_view, pairs. cbn [plain_opts o_cdorder o_gaps]. apply views_parsed. }
+  destruct ((zlen ms >=? A_M16) || (zlen C >=? A_M32) || (zlen L >=? A_M32) || negb (mode =? 0)) eqn:Ez64.
+  - (* ZIP64 records present *)
+    rewrite HE in Hz.
+    assert (Hfd : find_directory (rd_bytes z) (zlen z) = Ok (zlen L)).
+    { rewrite Hz. rewrite (app_assoc L C).
+      apply (find_directory_zip64 (L ++ C) 45 45 (zlen ms) (zlen C) (zlen L) c16 s32 o32); try lia.
+      - now rewrite zlen_app.
+      - rewrite Hz, !zlen_app, e64_len, l64_len, eocd_len in Hbig. lia.
+      - unfold fd_is_zip64, o32. intros Hf. apply orb_false_iff in Hf as [_ Hf].
+        destruct ((mode =? 1) || (zlen L >=? A_M32)); [unfold A_M32 in Hf; lia|reflexivity]. }
+    set (T := e64_of 45 45 (zlen ms) (zlen C) (zlen L) ++ l64_of (zlen L + zlen C) ++ eocd_of c16 s32 o32) in *.
+    assert (HT : zlen T = 98) by (unfold T; rewrite !zlen_app, e64_len, l64_len, eocd_len; reflexivity).
+    assert (Hzl : zlen z = zlen L + zlen C + 98) by (rewrite Hz, !zlen_app, HT; lia).
+    eexists. unfold read_zip. rewrite Hfd. cbn [bind].
+    replace (zlen z - zlen L <? 0) with false by lia. replace (zlen z - zlen L =? 0) with false by lia.
+    assert (Rcd : rd_bytes z (zlen L) (zlen z - zlen L) = Ok (C ++ T)).
+    { rewrite Hz at 1. rewrite <- (app_nil_r (C ++ T)) at 1. rewrite <- app_assoc.
+      replace (L ++ C ++ T ++ []) with (L ++ (C ++ T) ++ []) by now rewrite <- !app_assoc.
+      apply rd_bytes_mid; [reflexivity|rewrite !zlen_app, HT; lia]. }
+    rewrite Rcd. cbn [bind]. unfold T. unfold C at 1. rewrite rwd_zip64 by exact Hcen. fold C. fold T.
+    repeat split.
+    + cbn [dir_zip64 d_dirloc]. rewrite !zlen_app, HT. lia.
+    + intros md. apply Hsizes. reflexivity.
+    + exact Hview.
+    + eexists. eexists. split; [apply get_original_zip64|]. fold C. fold T. rewrite Hz. now rewrite zdrop_app_exact.
+  - (* plain end record *)
+    apply orb_false_iff in Ez64 as [Eneed Emode]. apply orb_false_iff in Eneed as [Eneed E3]. apply orb_false_iff in Eneed as [E1 E2].
+    assert (Hm0 : mode = 0) by (destruct (Z.eqb_spec mode 0); [assumption|discriminate]).
+    rewrite HE in Hz.
+    assert (Hc : c16 = zlen ms) by (unfold c16; rewrite Hm0, E1; reflexivity).
+    assert (Hs : s32 = zlen C) by (unfold s32; rewrite Hm0, E2; reflexivity).
+    assert (Ho : o32 = zlen L) by (unfold o32; rewrite Hm0, E3; reflexivity).
+    unfold A_M16, A_M32 in *.
+    assert (Hfd : find_directory (rd_bytes z) (zlen z) = Ok (zlen L)).
+    { rewrite Hz, Hc, Hs, Ho. rewrite (app_assoc L C). destruct (Z_lt_ge_dec (zlen (L ++ C)) 20).
+      - apply find_directory_short; lia.
+      - apply find_directory_plain; lia. }
+    set (T := eocd_of c16 s32 o32) in *.
+    assert (HT : zlen T = 22) by (unfold T; apply eocd_len).
+    assert (Hzl : zlen z = zlen L + zlen C + 22) by (rewrite Hz, !zlen_app, HT; lia).
+    eexists. unfold read_zip. rewrite Hfd. cbn [bind].
+    replace (zlen z - zlen L <? 0) with false by lia. replace (zlen z - zlen L =? 0) with false by lia.
+    assert (Rcd : rd_bytes z (zlen L) (zlen z - zlen L) = Ok (C ++ T)).
+    { rewrite Hz at 1. replace (L ++ C ++ T) with (L ++ (C ++ T) ++ []) by now rewrite app_nil_r.
+      apply rd_bytes_mid; [reflexivity|rewrite !zlen_app, HT; lia]. }
+    rewrite Rcd. cbn [bind]. unfold T. unfold C at 1. rewrite rwd_plain by exact Hcen. fold C. fold T.
+    repeat split.
+    + cbn [dir_plain d_dirloc]. rewrite !zlen_app, HT. lia.
+    + intros md. apply Hsizes. reflexivity.
+    + exact Hview.
+    + eexists. eexists. split; [apply get_original_plain|]. fold C. fold T. rewrite Hz. now rewrite zdrop_app_exact.
+Qed.
+
+(* ------------------------------------------------------------------ where the full statement fails: concrete witnesses *)
+Definition wm (name : Z) (data : bytes) (usize : Z) (desc : desc_kind) (reader : Z) : smember :=
+  mkMem [name] [] [] [] 20 reader 0 0 0 0 7 data usize 0 0 0 desc false false false false false.
+Definition with_comment (c : bytes) : sopts := mkOpts [] c 0 45 45 [] [] [].
+Definition with_prefix (p : bytes) : sopts := mkOpts p [] 0 45 45 [] [] [].
+Definition with_order (ord : list nat) : sopts := mkOpts [] [] 0 45 45 [] [] ord.
+Definition with_gap (g : list bytes) : sopts := mkOpts [] [] 0 45 45 g [] [].
+Definition sizes_of (md : mode) (z : bytes) : result (list sized) :=
+  d <- read_zip (rd_bytes z) (zlen z) ;; total_sizes md (rd_bytes z) 0 (d_files d).
+
+(* APPNOTE 4.3.9.3: the descriptor signature is optional *)
+Lemma descriptor_without_signature_refuted :
+  exists ms, sizes_of Random (build ms (plain_opts 0)) = Err E_DDSIG.
+Proof. exists [wm 97 [1; 2] 2 D12 20]. vm_compute. reflexivity. Qed.
+(* APPNOTE 4.3.16: the end record may carry a comment *)
+Lemma archive_comment_refuted :
+  exists ms c, let z := build ms (with_comment c) in read_zip (rd_bytes z) (zlen z) = Err E_NOCD.
+Proof. exists [wm 97 [1; 2] 2 DNone 20], [33]. vm_compute. reflexivity. Qed.
+(* data in front of the archive (self-extracting stubs): standard readers adjust, relic takes the offset as absolute *)
+Lemma prefix_refuted :
+  exists ms p, let z := build ms (with_prefix p) in read_zip (rd_bytes z) (zlen z) = Err E_NOEND.
+Proof. exists [wm 97 [1; 2] 2 DNone 20], [88]. vm_compute. reflexivity. Qed.
+(* WriteDirectory regenerates the end records: an unmodified directory is not reproduced byte for byte *)
+Lemma writedirectory_end_records_refuted :
+  exists ms mode d cd eod, let z := build ms (plain_opts mode) in
+    read_zip (rd_bytes z) (zlen z) = Ok d /\ write_directory (d_files d) (d_dirloc d) false false false = Ok (cd, eod) /\
+    cd ++ eod <> zdrop (d_dirloc d) z.
+Proof.
+  exists [wm 97 [1; 2] 2 DNone 20], 1.
+  destruct (read_zip (rd_bytes (build [wm 97 [1; 2] 2 DNone 20] (plain_opts 1))) (zlen (build [wm 97 [1; 2] 2 DNone 20] (plain_opts 1)))) as [d| |] eqn:E;
+    try (vm_compute in E; discriminate).
+  exists d. vm_compute in E. injection E as <-. eexists. eexists. split; [reflexivity|]. split; [vm_compute; reflexivity|]. vm_compute. discriminate.
+Qed.
+(* single pass: the directory order must be the physical order *)
+Lemma stream_directory_order_refuted :
+  exists ms ord, is_ok (sizes_of Random (build ms (with_order ord))) = true /\ sizes_of Stream (build ms (with_order ord)) = Err E_SEEK.
+Proof. exists [wm 97 [1; 2] 2 DNone 20; wm 98 [3] 1 DNone 20], [1%nat; 0%nat]. vm_compute. split; reflexivity. Qed.
+(* rewriting (AddFile) assumes members are contiguous from offset 0 in directory order *)
+Lemma rewrite_contiguity_refuted :
+  exists ms g d, let z := build ms (with_gap g) in
+    read_zip (rd_bytes z) (zlen z) = Ok d /\
+    exists f size, hd_error (d_files d) = Some f /\ sizes_of Random z = Ok [size] /\
+      e_offset (hd f (fst (add_file [] 0 f (s_total size)))) <> e_offset f.
+Proof.
+  exists [wm 97 [1; 2] 2 DNone 20], [[0; 0; 0]].
+  destruct (read_zip (rd_bytes (build [wm 97 [1; 2] 2 DNone 20] (with_gap [[0; 0; 0]]))) (zlen (build [wm 97 [1; 2] 2 DNone 20] (with_gap [[0; 0; 0]])))) as [d| |] eqn:E;
+    try (vm_compute in E; discriminate).
+  exists d. vm_compute in E. injection E as <-. split; [reflexivity|].
+  eexists. eexists. split; [reflexivity|]. split; [vm_compute; reflexivity|]. vm_compute. discriminate.
+Qed.
+(* residual of the width inference: empty member, 24-byte descriptor, version-needed below 45 *)
+Lemma descriptor24_empty_version20_refuted :
+  exists ms s, sizes_of Random (build ms (plain_opts 0)) = Ok [s] /\ s_ddlen s = 16 /\ zlen (sp_desc (hd (wm 0 [] 0 DNone 0) ms)) = 24.
+Proof. exists [wm 97 [] 0 D24 20]. eexists. split; [vm_compute; reflexivity|]. split; reflexivity. Qed.
+(* and of its repair in streaming mode: a real 16-byte descriptor of an empty member with version-needed >= 45 *)
+Lemma stream_descriptor16_empty_version45_refuted :
+  exists ms, sizes_of Random (build ms (plain_opts 0)) = Ok (map sized_of ms) /\ sizes_of Stream (build ms (plain_opts 0)) = Err E_SEEK.
+Proof. exists [wm 97 [] 0 D16 45; wm 98 [3] 1 DNone 20]. vm_compute. split; reflexivity. Qed.
